@@ -56,6 +56,7 @@ func runC20(c *Ctx) {
 	c.assume("no panic unwinds through the request loop (with the C07 barrier a panic ends the connection with its root span unfinished; panics are not among the property's outcomes)")
 	c.assume("defers run at function exit in LIFO order (go/ssa rundefers)")
 	ruleNilNilDeref(c, "R20.p")
+	ruleArgumentIndexSafety(c, "R20.p")
 	loops := c.P.connLoops()
 	c.count("conn-loops", len(loops))
 	c.floor("conn-loops", 1)
